@@ -72,7 +72,8 @@ func oracle(c Case) *ev.Verdict {
 	var gotPat string
 	var gotLen uint
 	var ex1, ex2 []byte
-	var exErr, ex2Err error
+	var exErr, ex2Err, heldErr error
+	var heldNow, heldNext []byte
 	var astVal string
 	var oas []byte
 	var oasErr error
@@ -109,8 +110,16 @@ func oracle(c Case) *ev.Verdict {
 		var raw []byte
 		raw, exErr = r.Example()
 		ex1 = append([]byte{}, raw...)
+		// the first result is held while the object is asked again: it must stay what it was
+		var rawNext []byte
+		rawNext, heldErr = r.Example()
+		heldNext = append([]byte{}, rawNext...)
+		heldNow = append([]byte{}, raw...)
 		for i := range raw {
 			raw[i] = '\x00'
+		}
+		for i := range rawNext {
+			rawNext[i] = '\x00'
 		}
 		ex2, ex2Err = r.Example()
 		a, _ := r.GetAST()
@@ -136,6 +145,15 @@ func oracle(c Case) *ev.Verdict {
 		// not exist; Example() has to return (the panic case is judged above), what it returns is not asserted
 		ev.Excluded("all", "example-match skipped: a character class without members (possibly unsatisfiable)")
 		return nil
+	}
+	if exErr == nil && heldErr == nil && string(heldNow) != string(ex1) {
+		return ev.V("example:held-result-changed", "regex schema %q: Example() returned %q; after the next Example() call (%q) the held result reads %q", s, ex1, heldNext, heldNow)
+	}
+	if exErr == nil && heldErr == nil && re != nil && !anchors.MatchString(pat) && !hasEmptyClass(pat) && !re.Match(heldNext) {
+		return ev.V("example:no-match", "second Example() of %q is %q which /%s/ does not match", s, heldNext, pat)
+	}
+	if exErr == nil && heldErr != nil {
+		exErr = heldErr
 	}
 	if exErr == nil && ex2Err != nil {
 		exErr = ex2Err // (the generator is a random stream: a later call may be the one that reaches the class)
@@ -250,7 +268,7 @@ func hasHighClassWithoutASCII(pat string) bool {
 	return walk(re) || walk(re.Simplify())
 }
 
-var alphabet = []string{"/", "\\", "a", "b", "[", "]", "(", ")", "*", "+", "?", ".", "^", "|", "{", "}", "1", ","}
+var alphabet = []string{"/", "\\", "a", "b", "[", "]", "(", ")", "*", "+", "?", ".", "^", "|", "{", "}", "1", ",", "\n"}
 
 func nontrivial(s string) bool {
 	pat, closed := refDelim(s)
@@ -289,11 +307,11 @@ func TestPropEnumerate(t *testing.T) {
 func genAtom(t *rapid.T, depth int) string {
 	switch rapid.IntRange(0, 9).Draw(t, "atom") {
 	case 0, 1, 2:
-		return rapid.SampledFrom([]string{"a", "b", "Z", "0", "7", " ", "-", "_", "é", "x", "@", "#", ":"}).Draw(t, "lit")
+		return rapid.SampledFrom([]string{"a", "b", "Z", "0", "7", " ", "-", "_", "é", "x", "@", "#", ":", "\n", "\r", "\t", "\r\n", "a\nb"}).Draw(t, "lit")
 	case 3:
 		return rapid.SampledFrom([]string{`\/`, `\\`, `\.`, `\d`, `\w`, `\s`, `\[`, `\(`, `\*`, `\+`, `\?`, `\|`, `\{`, `\x41`, `\t`, `\-`}).Draw(t, "esc")
 	case 4:
-		items := rapid.SliceOfN(rapid.SampledFrom([]string{"a", "a-c", "0-9", "A-Z", `\/`, `\\`, `\]`, "_", " ", `\d`, "é", `\x01`}), 1, 3).Draw(t, "cls")
+		items := rapid.SliceOfN(rapid.SampledFrom([]string{"a", "a-c", "0-9", "A-Z", `\/`, `\\`, `\]`, "_", " ", `\d`, "é", `\x01`, "\n", "\t"}), 1, 3).Draw(t, "cls")
 		neg := ""
 		if rapid.IntRange(0, 4).Draw(t, "neg") == 0 {
 			neg = "^"
